@@ -144,6 +144,66 @@ def run(res, tier):
                     bad.append(dict(what='LmiEdmd with this inv_method does not return the Edmd optimum under pure Tikhonov '
                                          'regularisation', inv_method=inv, alpha=alpha, cost=c_u, cost_edmd=c_e,
                                     coef_difference=d, X=X.tolist()))
+    # LDL factorisations whose pivot order is a permutation that is not its own inverse (a cycle of three or more
+    # features): found by sampling well-conditioned data sets with four or five features
+    n_cyc = 2 if tier == 'quick' else 10
+    found = 0
+    for t in range(400):
+        if found >= n_cyc:
+            break
+        ns, nu = (3, 1) if t % 2 == 0 else (3, 2)
+        X, _, _ = lmi.linear_data(rng, ns, nu, kind='stable', n_eps=2, length=12, noise=0.05)
+        X[:, 1:] *= rng.uniform(0.3, 3.0, size=ns + nu)
+        Psi, Thp = pairs(X, nu)
+        if np.linalg.cond(Psi) > 100:
+            continue
+        alpha = 0.0 if t % 4 < 2 else 2.0
+        q = Psi.shape[1]
+        perm = scipy.linalg.ldl(Psi @ Psi.T / q + alpha / q * np.eye(Psi.shape[0]))[2]
+        if np.array_equal(perm[perm], np.arange(len(perm))):
+            continue
+        found += 1
+        dist['sweep_ldl_pivot_cycle'] = dist.get('sweep_ldl_pivot_cycle', 0) + 1
+        e = pykoop.Edmd(alpha=alpha).fit(X, n_inputs=nu, episode_feature=True)
+        c_e = doc_cost(e.coef_.T, Psi, Thp, alpha, 0.0, 'tikhonov', False)
+        for inv in ('ldl', 'chol'):
+            try:
+                reg = L.LmiEdmd(alpha=alpha, reg_method='tikhonov', inv_method=inv, solver_params=lmi.SOLVER)
+                reg.fit(X, n_inputs=nu, episode_feature=True)
+            except Exception:  # noqa
+                dist['fit_error'] = dist.get('fit_error', 0) + 1
+                continue
+            c_u = doc_cost(reg.coef_.T, Psi, Thp, alpha, 0.0, 'tikhonov', False)
+            d = float(np.max(np.abs(e.coef_ - reg.coef_)))
+            if c_u > c_e + 1e-3 * max(1e-3, abs(c_e)) or (np.linalg.cond(Psi) < 30 and d > 5e-3 * max(1.0, float(np.max(np.abs(e.coef_))))):
+                bad.append(dict(what='LmiEdmd with this inv_method does not return the Edmd optimum under pure Tikhonov '
+                                     'regularisation', inv_method=inv, alpha=alpha, cost=c_u, cost_edmd=c_e, pivot_order=perm.tolist(),
+                                coef_difference=d, X=X.tolist()))
+    # a single state (the Koopman matrix is a row vector): nuclear / two-norm of a vector is its Euclidean norm
+    vec = [(fam, nu, rm) for fam in ('edmd', 'dmdc') for nu in (1, 2) for rm in ('nuclear', 'twonorm')]
+    for j, (fam, nu, rm) in enumerate(vec if tier != 'quick' else vec[::2] + vec[1::4]):
+        X, _, _ = lmi.linear_data(rng, 1, nu, kind='stable', n_eps=2, length=12, noise=0.05)
+        Psi, Thp = pairs(X, nu)
+        alpha, ratio, square = 1.0, (1.0 if j % 2 == 0 else 0.5), bool(j % 3 == 0)
+        try:
+            if fam == 'edmd':
+                reg = L.LmiEdmd(alpha=alpha, ratio=ratio, reg_method=rm, inv_method='chol', square_norm=square, solver_params=lmi.SOLVER)
+            else:
+                reg = L.LmiDmdc(alpha=alpha, ratio=ratio, reg_method=rm, square_norm=square, solver_params=lmi.SOLVER)
+            reg.fit(X, n_inputs=nu, episode_feature=True)
+        except Exception:  # noqa
+            dist['fit_error'] = dist.get('fit_error', 0) + 1
+            continue
+        if getattr(reg, 'solution_status_', 'optimal') != 'optimal':
+            dist['not_optimal_status'] = dist.get('not_optimal_status', 0) + 1
+            continue
+        dist['single_state/' + rm] = dist.get('single_state/' + rm, 0) + 1
+        f = lambda V: doc_cost(V, Psi, Thp, alpha * (1 - ratio), alpha * ratio, rm, square)
+        c_u = f(reg.coef_.T)
+        best, bu = local_search(reg.coef_.T, f, rng)
+        if best < c_u - 2e-4 * max(1.0, abs(c_u)):
+            bad.append(dict(what='an independent local search finds a matrix with lower documented cost', cost=c_u, cost_found=best,
+                            competitor=bu.tolist(), family=fam, estimator=repr(reg), n_states=1, n_inputs=nu, X=X.tolist()))
     # history: a fit must not be served a factorisation memoised for OTHER parameters (truncated SVD first, then the
     # untruncated one on the same data and alpha); reference = the same fit with an emptied cache, and Edmd
     n_hist = 2 if tier == 'quick' else 12
